@@ -52,6 +52,9 @@ def _canon_real(v):
 
 
 def _canon_model(interp, v):
+    from .interp import SeqVal
+    if isinstance(v, (list, tuple)) and any(isinstance(x, SeqVal) for x in v):
+        return concrete.canon_model(interp, v)
     if isinstance(v, slice):
         return ('slice', v.start, v.stop, v.step)
     if isinstance(v, (list, tuple)):
